@@ -28,10 +28,10 @@ PROPS["C09"] = {
     "design_ref": "DESIGN.md §6 C09",
     "technique": "Lean 4 theorems: VarInt/VarLong round trip and layout for all 2^32/2^64 values (BitVec transliteration of the Rust loops), generic schema round trip by induction over field lists, extracted packet ids/field operations/enum tables = protocol table by decide; differential correspondence of the executable codec model on all 41 packet types",
     "level_text": "Machine-checked proofs over unbounded domains: writeVarint/writeVarlong (arithmetic shift + mask on BitVec 32/64) equal the LEB128 layout and are inverted by the readers for every value; for every schema and every well-formed value list decode(encode v ++ rest) = (v, rest); enum decoders accept exactly their range. The per-packet ids, read/write primitive sequences and enum tables are re-extracted from passage-packets on every run and proved equal to the protocol table the theorems are about. The executable model is compared with the real reader/writer on boundary-dense values of every packet type, truncations, bad enum ordinals and invalid UTF-8; an independent reference encoder in the harness judges layout and round trip.",
-    "level_note": "Trusted: Lean kernel; the protocol table is a hand transcription (no network to consult the wiki); primitives' Rust bodies are modelled by hand and tied by differential runs; compound (NBT) text components go through fastnbt and are not modelled (string form is proved); tokio's Cursor/Vec I/O.",
-    "lean_modules": ["Passage.Props.C09"],
+    "level_note": "Trusted: Lean kernel; the protocol table is a hand transcription (no network to consult the wiki); primitives' Rust bodies are modelled by hand and tied by differential runs; compound (NBT) text components: the network-NBT layout of strings, booleans and nested compounds is modelled (Codec/Nbt.lean, no root name) and compared with the real writer on generated trees; serde_json's parse of the text into that tree, numbers/lists inside components and NBT's modified UTF-8 beyond the BMP are not modelled; tokio's Cursor/Vec I/O.",
+    "lean_modules": ["Passage.Props.C09", "Passage.Props.C09Nbt"],
     "cases": {"quick": 4000, "thorough": 400000},
-    "rule": "VarInt/VarLong: every group boundary ±1, ±2^k±1, extremes, random with random magnitude; arbitrary ≤12-byte strings through the readers; per packet type boundary-dense field values (empty/multi-byte/long strings around VarInt group boundaries, integer boundaries, every enum ordinal, None/Some) encoded with the real writer and decoded back (1/3 with trailing bytes), truncations, enum ordinals outside the table, invalid UTF-8; non-trivial = every case except unit packets; distinct = distinct request lines; added: strings of 65535-98301 bytes; hand-made images with out-of-range ordinals or invalid UTF-8 must be refused (oracle)",
+    "rule": "VarInt/VarLong: every group boundary ±1, ±2^k±1, extremes, random with random magnitude; arbitrary ≤12-byte strings through the readers; per packet type boundary-dense field values (empty/multi-byte/long strings around VarInt group boundaries, integer boundaries, every enum ordinal, None/Some) encoded with the real writer and decoded back (1/3 with trailing bytes), truncations, enum ordinals outside the table, invalid UTF-8; non-trivial = every case except unit packets; distinct = distinct request lines; added: strings of 65535-98301 bytes; hand-made images with out-of-range ordinals or invalid UTF-8 must be refused (oracle); compound text components: generated trees (0-4 keys per level, nesting up to 3, strings with quotes/escapes/multi-byte characters/127-300 bytes, booleans) as the reason of a configuration Disconnect, bytes against the model and an independent reference, and decoded back",
     "trusted_base": TB_COMMON + [
         "protocol table (lean/Passage/Codec/Packets.lean) is a hand transcription of the Java-edition protocol",
         "compound (NBT) text components are not modelled (fastnbt oracle); string-tag form is proved",
